@@ -79,6 +79,13 @@ def run_instance(args):
         has = [pid not in inst["missing"] for pid in PIDS]
         f = np.array([[inst["table"][pid][k] if h else 0 for k in range(n)] for pid, h in zip(PIDS, has)], dtype=float)
         raw, rawerr = apply.apply_grids(eko, f[None, :, :])
+        # the same input stacked with two other inputs on the replica axis
+        others = [np.roll(f, 1, axis=0) * 2.0, f[::-1].copy() - 1.0]
+        stack = np.stack([others[0], f, others[1]])
+        rs, rse = apply.apply_grids(eko, stack)
+        singles = [apply.apply_grids(eko, s[None, :, :]) for s in stack]
+        replicas_ok = all(np.array_equal(rs[k][i], singles[i][0][k][0]) for k in rs for i in range(3)) and \
+            all(np.array_equal(rse[k][i], singles[i][1][k][0]) for k in rse for i in range(3))
         raw0 = {k: np.array(v, copy=True) for k, v in raw.items()}
         rawerr0 = {k: np.array(v, copy=True) for k, v in rawerr.items()}
         low = {}
@@ -144,6 +151,7 @@ def run_instance(args):
                 rec["outerr"] = conv(outerr[key]) if key in outerr else []
                 rec["exact"] = bool(exact)
                 rec["lowlevel"] = low.get((rotate, tuple(tgt), key), "same")
+                rec["replicas"] = "same" if replicas_ok else "differ"
                 rec["_key"] = key
                 recs.append(rec)
         intact = all(np.array_equal(raw[k], raw0[k]) for k in raw0) and all(np.array_equal(rawerr[k], rawerr0[k]) for k in rawerr0)
